@@ -67,6 +67,9 @@ pub enum Act {
     ClrS { store: u8 },
     /// The handler instructs the agent to stop (clean stop from inside).
     StopSelf,
+    /// Run `act` after `ms` milliseconds (`run_after`): a lane change that the agent makes by itself,
+    /// without any inbound traffic.
+    Later { ms: u64, act: Box<Act> },
     /// The handler fails with an application error (`context.fail`): the rest of the program is
     /// abandoned, the agent logs the error and carries on.
     Abort,
@@ -246,6 +249,10 @@ fn act_handler(context: Ctx, shared: &Arc<Shared>, act: Act) -> Box<dyn EventHan
             _ => Box::new(context.clear(PAgent::MST).followed_by(context.effect(record))),
         },
         Act::StopSelf => Box::new(context.effect(record).followed_by(context.stop())),
+        Act::Later { ms, act } => {
+            let inner = act_handler(context, shared, *act);
+            Box::new(context.run_after(std::time::Duration::from_millis(ms), inner))
+        }
         Act::Abort => Box::new(context.effect(record).followed_by(context.fail::<(), _>(InjectedHandlerError))),
         Act::Fail => Box::new(context.effect(record).followed_by(Fatal)),
     }
